@@ -167,7 +167,7 @@ def completeness():
 
     objs = set()
     for c in {t.func for t in R.TEMPLATES}:
-        if c.startswith(("ndarray", "unyt.")):
+        if c.startswith(("ndarray", "unyt.", "ufunc.")):
             continue
         o = np
         for part in c.split(".")[1:]:
